@@ -12,6 +12,7 @@ import (
 
 	"github.com/teleport-network/teleport/syscontracts"
 	packetcontract "github.com/teleport-network/teleport/syscontracts/xibc_packet"
+	tsstypes "github.com/teleport-network/teleport/x/xibc/clients/tss-client/types"
 	packettypes "github.com/teleport-network/teleport/x/xibc/core/packet/types"
 
 	"verif/harness/kit"
@@ -403,6 +404,60 @@ func (m *Machine) ActAck(t *rapid.T) {
 	if m.OnAck != nil {
 		m.OnAck(p, o)
 	}
+}
+
+// ActToggleRoundTrip: governance switches the client that chain d keeps for chain s from Tendermint to TSS (ToggleClient wipes
+// the CLIENT's store) and later back. While the TSS client is in place, the TSS account - now the only authorised relayer for
+// s - replays every packet of s that d has already accepted, and every acknowledgement d has already processed for packets it
+// sent to s: a client toggle must not make d forget what it received or acknowledged, so each replay must fail and change
+// nothing. Then the Tendermint client is reinstalled at s's last header and the history continues.
+func (m *Machine) ActToggleRoundTrip(t *rapid.T) {
+	w := m.W
+	d := rapid.IntRange(0, len(w.Chains)-1).Draw(t, "on")
+	s := rapid.IntRange(0, len(w.Chains)-2).Draw(t, "of")
+	if s >= d {
+		s++
+	}
+	cd, cs := w.Chains[d], w.Chains[s]
+	ck := cd.App.XIBCKeeper.ClientKeeper
+	// the TSS account becomes (also) a relayer for s on d, the way a RegisterRelayer proposal does
+	ir, _ := ck.GetRelayer(cd.Ctx(), w.TSS.Acc.String())
+	has := false
+	for _, n := range ir.Chains {
+		has = has || n == cs.ChainID
+	}
+	if !has {
+		cd.RegisterRelayer(w.TSS.Acc, append(append([]string{}, ir.Chains...), cs.ChainID), append(append([]string{}, ir.Addresses...), w.TSS.Acc.String()))
+	}
+	tss := &tsstypes.ClientState{TssAddress: w.TSS.Acc.String(), Pubkey: []byte("pubkey"), PartPubkeys: [][]byte{[]byte("p1")}}
+	kit.Must(ck.ToggleClient(cd.Ctx(), cs.ChainID, tss, &tsstypes.ConsensusState{}), "toggle to TSS")
+	replays := 0
+	for _, p := range w.Pkts {
+		if p.SrcIdx == s && p.DstIdx == d && p.Received {
+			o := w.DeliverDumped(d, w.TSS, packettypes.NewMsgRecvPacket(p.Bz, []byte{}, H(0, 1), w.TSS.Acc))
+			if o.Res.OK() {
+				m.Failf("after a client toggle on chain %d the already accepted packet %s was accepted AGAIN (relayed by the TSS account)", d, p.T)
+			}
+			if !o.Unchanged() {
+				m.Failf("rejected replay of %s after a client toggle changed state:\n%s", p.T, o.DiffString())
+			}
+			replays++
+		}
+		if p.SrcIdx == d && p.DstIdx == s && p.Acked && len(p.AckBz) > 0 {
+			o := w.DeliverDumped(d, w.TSS, packettypes.NewMsgAcknowledgement(p.Bz, p.AckBz, []byte{}, H(0, 1), w.TSS.Acc))
+			if o.Res.OK() {
+				m.Failf("after a client toggle on chain %d the already processed acknowledgement of %s was processed AGAIN", d, p.T)
+			}
+			if !o.Unchanged() {
+				m.Failf("rejected acknowledgement replay of %s after a client toggle changed state:\n%s", p.T, o.DiffString())
+			}
+			replays++
+		}
+	}
+	tm, cons := cd.TMClientAt(cs, 0)
+	kit.Must(ck.ToggleClient(cd.Ctx(), cs.ChainID, tm, cons), "toggle back to Tendermint")
+	m.R.Label(fmt.Sprintf("toggle_round_trip_replays_%d", min(replays, 3)))
+	m.Log("toggleRoundTrip", fmt.Sprintf("client of %d on %d", s, d), fmt.Sprintf("%d replays rejected", replays))
 }
 
 // ActFundMoody gives the moody callback contract of a chain a balance, after which callbacks into it stop reverting.
